@@ -231,9 +231,13 @@ class Categorize(Factory, Container):
             if not isinstance(q, (basestring, bool)):
                 raise TypeError(f"function return value ({q}) must be a string or bool")
 
-            if q not in self.bins:
-                self.bins[q] = self.value.zero()
-            self.bins[q].fill(datum, weight)
+            if q in self.bins:
+                self.bins[q].fill(datum, weight)
+            else:
+                # fill before inserting: a fill that raises must not leave an empty bin behind
+                sub = self.value.zero()
+                sub.fill(datum, weight)
+                self.bins[q] = sub
 
             # no possibility of exception from here on out (for rollback)
             self.entries += weight
